@@ -10,6 +10,9 @@ use bigdecimal::BigDecimal;
 use serde::{Deserialize, Serialize};
 use std::cmp::Ordering;
 
+/// number of ways a value can travel before being observed (see `Dec::to_bd_via`)
+pub const TRANSPORTS: u8 = 11;
+
 /// A decimal as it appears in a trace / replay file: sign+digits as text, and the scale.
 #[derive(Clone, Debug, PartialEq, Eq, Serialize, Deserialize, Hash)]
 pub struct Dec {
@@ -61,7 +64,7 @@ impl Dec {
     /// value freshly). 0 = fresh.
     pub fn to_bd_via(&self, transport: u8) -> BigDecimal {
         let v = self.to_bd();
-        match transport % 7 {
+        match transport % TRANSPORTS {
             0 => v,
             1 => v.clone(),
             2 => {
@@ -77,10 +80,32 @@ impl Dec {
             }
             4 => v.to_ref().to_owned(),
             5 => -(-v),
-            _ => {
+            6 => {
                 let mut slots = vec![BigDecimal::new(BigInt::from(1), 1), BigDecimal::new(BigInt::from(2), 200)];
                 slots.clone_from_slice(&[v.clone(), v]);
                 slots.pop().unwrap()
+            }
+            7 => {
+                // into a destination that is equal in value but has another scale (a copy must still be exact)
+                let mut slot = BigDecimal::new(self.bigint() * BigInt::from(100), self.scale.saturating_add(2));
+                v.to_ref().clone_into(&mut slot);
+                slot
+            }
+            8 => {
+                // into a destination with the same digits and the opposite sign
+                let mut slot = BigDecimal::new(-self.bigint(), self.scale);
+                v.to_ref().clone_into(&mut slot);
+                slot
+            }
+            9 => -&(-&v),
+            _ => {
+                // through the num-traits Signed::abs implementation (a separate one from the inherent abs)
+                use bigdecimal::num_traits::Signed;
+                if self.is_neg() {
+                    -Signed::abs(&v)
+                } else {
+                    Signed::abs(&v)
+                }
             }
         }
     }
